@@ -221,10 +221,10 @@ namespace {
     c.close(GU, est(mu, Hmax), slackG, k + ".formula", "mu upper");
     if (order == 2) {
       // equal phases: the four estimates coincide
-      c.close(KL, K0, 256 * u * (Kmax + Gmax), k + ".equal_phases", "K lower = K");
-      c.close(KU, K0, 256 * u * (Kmax + Gmax), k + ".equal_phases", "K upper = K");
-      c.close(GL, K0 * r0, 256 * u * (Kmax + Gmax), k + ".equal_phases", "mu lower = mu");
-      c.close(GU, K0 * r0, 256 * u * (Kmax + Gmax), k + ".equal_phases", "mu upper = mu");
+      c.close(KL, K0, 1024 * u * (Kmax + Gmax), k + ".equal_phases", "K lower = K");
+      c.close(KU, K0, 1024 * u * (Kmax + Gmax), k + ".equal_phases", "K upper = K");
+      c.close(GL, K0 * r0, 1024 * u * (Kmax + Gmax), k + ".equal_phases", "mu lower = mu");
+      c.close(GU, K0 * r0, 1024 * u * (Kmax + Gmax), k + ".equal_phases", "mu upper = mu");
     }
     if (d == 3 && N == 2 && order == 0 && f[0] > 0 && f[1] > 0) {
       // classical two-phase Hashin-Shtrikman expressions (phase 0 softer)
